@@ -19,20 +19,27 @@ import (
 func init() { register("C04", "model_checking", runC04, replayC04) }
 
 type masterGene struct {
-	In, Out int
+	In, Out string // symbolic: B bias, I1 I2 inputs, O O2 outputs, H1 H2 hidden
 	Rec     bool
 }
 
-// nodes: 1 bias, 2 and 3 inputs, 4 output, 5 and 6 hidden
 var c04Master = []masterGene{
-	{2, 4, false}, // #1
-	{3, 5, false}, // #2
-	{5, 4, false}, // #3
-	{2, 4, false}, // #4  same link as #1 (conflict pair)
-	{5, 5, true},  // #5  recurrent self-loop
-	{1, 4, false}, // #6  bias link
-	{3, 6, false}, // #7
-	{6, 4, false}, // #8
+	{"I1", "O", false},  // #1
+	{"I2", "H1", false}, // #2
+	{"H1", "O", false},  // #3
+	{"I1", "O", false},  // #4  same link as #1 (conflict pair)
+	{"H1", "H1", true},  // #5  recurrent self-loop
+	{"B", "O2", false},  // #6  bias link (to the second output where the layout has one)
+	{"I2", "H2", false}, // #7
+	{"H2", "O", false},  // #8
+}
+
+// c04Layouts: node ids per symbol. Layout 0: sensors, output, then hidden nodes (as in the
+// shipped start genomes). Layout 1: hidden nodes BEFORE the outputs and a second output (as
+// newGenomeRand lays genomes out), so that an output may be touched by no inherited gene.
+var c04Layouts = []map[string]int{
+	{"B": 1, "I1": 2, "I2": 3, "O": 4, "O2": 4, "H1": 5, "H2": 6},
+	{"B": 1, "I1": 2, "I2": 3, "H1": 4, "H2": 5, "O": 6, "O2": 7},
 }
 
 type c04Case struct {
@@ -43,6 +50,7 @@ type c04Case struct {
 	Trait  int    `json:"trait"`
 	Fit    int    `json:"fit"` // 0: A less fit, 1: tie, 2: A fitter
 	Method string `json:"method"`
+	Layout int    `json:"layout"`
 }
 
 func c04Valid(mask int) bool {
@@ -53,10 +61,14 @@ func c04Valid(mask int) bool {
 }
 
 func c04Parent(id, mask, enPat, traitPat, wOff int) *GenomeSpec {
+	return c04ParentL(0, id, mask, enPat, traitPat, wOff)
+}
+
+func c04ParentL(layout, id, mask, enPat, traitPat, wOff int) *GenomeSpec {
+	L := c04Layouts[layout]
+	act := xorSeed().Nodes[3].Act
 	s := &GenomeSpec{ID: id,
-		Traits: []TraitSpec{{1, params8(0.1 * float64(wOff+1))}, {2, params8(1.5 + float64(wOff))}},
-		Nodes: []NodeSpec{{1, network.BiasNeuron, 17, 0}, {2, network.InputNeuron, 17, 0}, {3, network.InputNeuron, 17, 0},
-			{4, network.OutputNeuron, xorSeed().Nodes[3].Act, 0}}}
+		Traits: []TraitSpec{{1, params8(0.1 * float64(wOff+1))}, {2, params8(1.5 + float64(wOff))}}}
 	need := map[int]bool{}
 	idx := 0
 	var cnt int
@@ -86,17 +98,35 @@ func c04Parent(id, mask, enPat, traitPat, wOff int) *GenomeSpec {
 			tr = 0
 		}
 		w := hardFloats[(i*3+wOff)%len(hardFloats)]
-		s.Genes = append(s.Genes, GeneSpec{In: m.In, Out: m.Out, Rec: m.Rec, W: w, Innov: int64(i + 1), Mut: hardFloats[(i+wOff+5)%len(hardFloats)], En: en, Trait: tr})
-		need[m.In], need[m.Out] = true, true
+		s.Genes = append(s.Genes, GeneSpec{In: L[m.In], Out: L[m.Out], Rec: m.Rec, W: w, Innov: int64(i + 1), Mut: hardFloats[(i+wOff+5)%len(hardFloats)], En: en, Trait: tr})
+		need[L[m.In]], need[L[m.Out]] = true, true
 		idx++
 	}
-	for _, h := range []int{5, 6} {
-		if need[h] {
-			t := 0
-			if traitPat != 2 {
-				t = 1 + (h+wOff)%2
+	// nodes in ascending id order: sensors and outputs always, hidden nodes only when a gene touches them
+	type nd struct {
+		id   int
+		role network.NodeNeuronType
+	}
+	all := []nd{{L["B"], network.BiasNeuron}, {L["I1"], network.InputNeuron}, {L["I2"], network.InputNeuron}, {L["O"], network.OutputNeuron}, {L["O2"], network.OutputNeuron},
+		{L["H1"], network.HiddenNeuron}, {L["H2"], network.HiddenNeuron}}
+	seen := map[int]bool{}
+	for id := 1; id <= 7; id++ {
+		for _, n := range all {
+			if n.id != id || seen[id] {
+				continue
 			}
-			s.Nodes = append(s.Nodes, NodeSpec{h, network.HiddenNeuron, xorSeed().Nodes[3].Act, t})
+			if n.role == network.HiddenNeuron && !need[id] {
+				continue
+			}
+			seen[id] = true
+			a := act
+			t := 0
+			if n.role == network.BiasNeuron || n.role == network.InputNeuron {
+				a = 17 // NullActivation
+			} else if n.role == network.HiddenNeuron && traitPat != 2 {
+				t = 1 + (id+wOff)%2
+			}
+			s.Nodes = append(s.Nodes, NodeSpec{id, n.role, a, t})
 		}
 	}
 	return s
@@ -134,8 +164,8 @@ func popcount(x int) int {
 }
 
 func c04RunCase(c *Ctx, prop string, cs *c04Case, oracle func(cs *c04Case, t *gsTransition), onlyPrefix []int, polName string) (execs int64) {
-	sa := c04Parent(1, cs.MaskA, cs.EnA, cs.Trait, 0)
-	sb := c04Parent(2, cs.MaskB, cs.EnB, cs.Trait, 3)
+	sa := c04ParentL(cs.Layout, 1, cs.MaskA, cs.EnA, cs.Trait, 0)
+	sb := c04ParentL(cs.Layout, 2, cs.MaskB, cs.EnB, cs.Trait, 3)
 	matching := popcount(cs.MaskA & cs.MaskB)
 	pols := []string{"Z"}
 	dev := 99
@@ -237,6 +267,13 @@ func c04Enumerate(c *Ctx, bd c04Bounds, oracle func(cs *c04Case, t *gsTransition
 								cs := &c04Case{MaskA: masks[ai], MaskB: mb, EnA: ea, EnB: eb, Trait: tp, Fit: fit, Method: me}
 								execs += c04RunCase(c, bd.Prop, cs, oracle, nil, "")
 								cases++
+								if ea == enPats[0] && eb == enPats[len(enPats)-1] {
+									// second node layout (hidden nodes before the outputs, two outputs)
+									cs2 := *cs
+									cs2.Layout = 1
+									execs += c04RunCase(c, bd.Prop, &cs2, oracle, nil, "")
+									cases++
+								}
 							}
 						}
 					}
@@ -424,7 +461,7 @@ func runC04(c *Ctx) {
 	c.Extra["master_list_k"] = bd.K
 	c04Enumerate(c, bd, c04Oracle(c))
 	c.States = int64(len(c.distinct))
-	c.Rule = fmt.Sprintf("parents = every non-empty well-formed subset of a master list of k=%d innovations over {bias, 2 inputs, output, 2 hidden} that contains two innovations for the same link and a recurrent self-loop; all ordered pairs x enabled patterns x trait patterns {mixed, nil, (thorough: uniform)} x fitness orders {<,=,>} x {multipoint, multipoint-avg, single-point} x every choice sequence of the mate call (complete tree when <= 3 (multipoint) / <= 1 (avg) genes match and always for single-point, else all sequences within 3 / 2 deviations of Z, M, H); weights and mutation numbers from the hard-float alphabet. Oracle = the C04 statement clause by clause. states = distinct ordered parent pairs, transitions = mate calls on the real code", bd.K)
+	c.Rule = fmt.Sprintf("parents = every non-empty well-formed subset of a master list of k=%d innovations over {bias, 2 inputs, output(s), 2 hidden} - in two node layouts: outputs before the hidden nodes, and hidden nodes before two outputs - that contains two innovations for the same link and a recurrent self-loop; all ordered pairs x enabled patterns x trait patterns {mixed, nil, (thorough: uniform)} x fitness orders {<,=,>} x {multipoint, multipoint-avg, single-point} x every choice sequence of the mate call (complete tree when <= 3 (multipoint) / <= 1 (avg) genes match and always for single-point, else all sequences within 3 / 2 deviations of Z, M, H); weights and mutation numbers from the hard-float alphabet. Oracle = the C04 statement clause by clause. states = distinct ordered parent pairs, transitions = mate calls on the real code", bd.K)
 	c.Assume("parents share consistent innovation numbering (equal number => equal link); conflicting numbering appears only as two numbers for one link")
 	c.Assume("Go toolchain, go build -overlay, the instrumenter and the accessor file are trusted")
 }
